@@ -8,7 +8,7 @@ cd "$(dirname "$0")/.."
 REPO=${REPO:-/repo}
 pat=${1:-}
 out=${OUT:-/dev/stdout}
-for d in seeded/*${pat}*/; do
+for d in $(ls -d seeded/*/ | grep -E "${pat:-.}"); do
     name=$(basename "$d")
     id=${name%%-*}
     if ! git -C "$REPO" apply --check "$PWD/$d/patch.diff" 2>/dev/null; then
